@@ -109,7 +109,7 @@ Proof.
   destruct spec as [[sv force]|].
   - bind_as H as u Eu. destruct (Qcltb_spec sv 0) as [Hsv|]; cbn [negb] in H; [|discriminate].
     bind_as H as q Eq. bind_as H as n En. inversion H; subst. exact Hsv.
-  - destruct m as [r|]; [|discriminate]. bind_as H as c Ec'. apply neg_unwrap_ok in Ec' as [-> Hc].
+  - destruct m as [r|]; [|discriminate]. destruct (Qcltb_spec calc 0) as [Hc|]; cbn [negb] in H; [|discriminate].
     bind_as H as txs Et. inversion H; subst. exact Hc.
 Qed.
 Definition sfl_neg (d : delta) : Prop := forall i, d_sfl d = Some i -> sf_amount i < 0.
